@@ -2,6 +2,8 @@ package main
 
 import (
 	"fmt"
+	"time"
+	vt "verif/shim/vtime"
 
 	"github.com/hslam/rpc"
 	vs "verif/shim/vsync"
@@ -307,6 +309,7 @@ func init() {
 	register(&Scenario{Prop: "C08", Name: "c08/stream-backlog", Quick: []Bound{{0, 0}}, Thorough: []Bound{{1, 0}}, Body: c09Backlog([]sysMode{sysModes[0], sysModes[3]}), BudgetQ: 20, BudgetT: 200, MaxSteps: 400000, OnlyKeys: []string{"panic/", "livelock/"}})
 	register(&Scenario{Prop: "C09", Name: "c09/two-readers", Quick: []Bound{{1, 0}, {2, 0}}, Thorough: []Bound{{3, 0}}, Body: twoReaders("C09"), BudgetQ: 15})
 	register(&Scenario{Prop: "C10", Name: "c10/two-readers", Quick: []Bound{{1, 0}, {2, 0}}, Thorough: []Bound{{3, 0}}, Body: twoReaders("C10"), BudgetQ: 15})
+	register(&Scenario{Prop: "C03", Name: "c03/two-stream-readers", Quick: []Bound{{1, 0}}, Thorough: []Bound{{3, 0}}, Body: twoReaders("C03"), OnlyKeys: []string{"C03/", "panic/", "livelock/"}, BudgetQ: 15})
 }
 
 // two goroutines read from the same end of a stream (Stream is documented as usable from several
@@ -315,7 +318,12 @@ func init() {
 // blocked reader returns (C10).  The server handler does the same with two readers of its own.
 func twoReaders(prop string) func(x *X) {
 	return func(x *X) {
-		end := x.Choose(3) // how the stream ends: Stream.Close / Conn.Close / the peer disappears
+		end := 0 // how the stream ends: Stream.Close / Conn.Close / the peer disappears
+		if prop == "C03" {
+			end = 1 + x.Choose(2)
+		} else {
+			end = x.Choose(3)
+		}
 		f := newFixture(srvOpts{bufSize: 64}, cliOpts{bufSize: 64})
 		st, err := f.conn.NewStream("StreamSvc.Push")
 		if err != nil {
@@ -336,10 +344,48 @@ func twoReaders(prop string) func(x *X) {
 			})
 			return r
 		}
+		single := prop != "C09" && x.Choose(2) == 1 // one message for two blocked readers: one of them stays blocked when the stream ends
 		r1, r2 := spawn("reader1"), spawn("reader2")
 		vs.QuiesceKeep()
 		m1, m2 := streamMsg(0x31, 0), streamMsg(0x31, 1)
 		st.WriteMessage(&m1)
+		if single {
+			vs.Quiesce()
+			if r1.ret == r2.ret {
+				x.Outcome("end=%d single: %v %v", end, r1.ret, r2.ret)
+				f.conn.Close()
+				vs.Quiesce()
+				return
+			}
+			left := r1
+			if r1.ret {
+				left = r2
+			}
+			switch end {
+			case 0:
+				vs.GoNamed("closer", func() { st.Close() })
+			case 1:
+				vs.GoNamed("closer", func() { f.conn.Close() })
+			case 2:
+				vs.GoNamed("closer", func() { f.sv.Close() })
+			}
+			vs.Quiesce()
+			how := []string{"Stream.Close", "Conn.Close", "peer-EOF"}[end]
+			if !left.ret {
+				if prop == "C03" {
+					x.Fail("C03/stream-reader-hangs/two-readers-one-message", "two goroutines were blocked in ReadMessage on one stream, one message arrived and was taken by one of them, then the connection ended (%s): the other reader is still blocked", how)
+				} else {
+					x.Fail("C10/client-reader-blocked/two-readers-one-message", "two readers were blocked on one stream, one message arrived and was taken by one of them, then the stream ended (%s): the other reader is still blocked", how)
+				}
+			}
+			if prop == "C10" && f.w.streamsEx != f.w.streamsIn {
+				x.Fail("C10/handler-blocked/two-readers-one-message", "%d stream handlers entered, %d returned after the stream ended", f.w.streamsIn, f.w.streamsEx)
+			}
+			x.Outcome("end=%d single left=%v", end, left.ret)
+			f.conn.Close()
+			vs.Quiesce()
+			return
+		}
 		st.WriteMessage(&m2)
 		vs.Quiesce()
 		if prop == "C09" {
@@ -370,6 +416,13 @@ func twoReaders(prop string) func(x *X) {
 			vs.GoNamed("closer", func() { f.sv.Close() })
 		}
 		vs.Quiesce()
+		if prop == "C03" {
+			for i, r := range []*rd{r3, r4} {
+				if !r.ret {
+					x.Fail("C03/stream-reader-hangs/two-readers", "two goroutines were blocked in ReadMessage on one stream when the connection ended (%s): reader %d is still blocked", []string{"Stream.Close", "Conn.Close", "peer-EOF"}[end], i+1)
+				}
+			}
+		}
 		if prop == "C10" {
 			for i, r := range []*rd{r3, r4} {
 				if !r.ret {
@@ -386,4 +439,157 @@ func twoReaders(prop string) func(x *X) {
 		f.conn.Close()
 		vs.Quiesce()
 	}
+}
+
+// user code that is slow while the stream is being connected (SetStream.Connect takes three
+// seconds of virtual time, the detector period of every timer-driven housekeeping the library and
+// its queues might have), then ordinary traffic: each message written afterwards is echoed, in
+// order, without needing a later message to push it along.
+func c09SlowConnect(x *X) {
+	so := srvOpts{bufSize: 64}
+	if x.Choose(2) == 1 {
+		so.pipelining = true
+	}
+	pause := x.Choose(2) == 1 // a pause between the messages
+	f := newFixture(so, cliOpts{bufSize: 64})
+	held := true
+	ssConnectGate = func() {
+		if held {
+			vs.Block("user Connect callback is slow", func() bool { return !held })
+		}
+	}
+	defer func() { ssConnectGate = nil }()
+	var st rpc.Stream
+	var err error
+	opened := false
+	vs.GoNamed("opener", func() { st, err = f.conn.NewStream("StreamSvc.Push"); opened = true })
+	for i := 0; i < 30; i++ {
+		vt.Advance(100 * time.Millisecond)
+		vs.Quiesce()
+	}
+	held = false
+	vs.Quiesce()
+	if !opened || err != nil {
+		x.Fail("C09/open-failed/slow-connect", "NewStream returned=%v err=%v after a slow Connect callback", opened, err)
+		f.conn.Close()
+		vs.Quiesce()
+		return
+	}
+	var got [][]byte
+	vs.GoNamed("reader", func() {
+		for {
+			var m []byte
+			if st.ReadMessage(nil, &m) != nil {
+				return
+			}
+			got = append(got, append([]byte(nil), m...))
+		}
+	})
+	n := 4
+	for j := 0; j < n; j++ {
+		m := streamMsg(0x31, j)
+		st.WriteMessage(&m)
+		vs.Quiesce()
+		if pause {
+			vt.Advance(200 * time.Millisecond)
+			vs.Quiesce()
+		}
+		if len(got) != j+1 {
+			x.Fail("C09/client-blocked/slow-connect", "after a Connect callback that took 3 s, message %d was written and the connection went quiet: %d echoes have arrived, want %d", j, len(got), j+1)
+			break
+		}
+	}
+	for j, m := range got {
+		if j < n && !eqBytes(m, transform(streamMsg(0x31, j))) {
+			x.Fail("C09/client-sequence/slow-connect", "echo %d is not the echo of message %d (got %x)", j, j, m)
+			break
+		}
+	}
+	x.Outcome("pipelining=%v pause=%v echoes=%d", so.pipelining, pause, len(got))
+	f.conn.Close()
+	vs.Quiesce()
+}
+
+// NewStream with a name the server cannot resolve (no dot, empty, leading / trailing dot, unknown
+// service, unknown method, a unary method) while the connection's first stream (sequence number 0)
+// and a second one are open: the refused opens return errors, the open streams go on echoing in
+// order, their handlers are still running.
+var c09BadNames = []string{"nodot", "", ".", ".Push", "StreamSvc.", "Nope.Push", "StreamSvc.Nope", "Svc.Echo", "StreamSvc.Push.x"}
+
+func c09RefusedOpens(x *X) {
+	so := srvOpts{bufSize: 64}
+	if x.Choose(2) == 1 {
+		so.pipelining = true
+	}
+	rot := x.Choose(len(c09BadNames))
+	f := newFixture(so, cliOpts{bufSize: 64})
+	st0, err0 := f.conn.NewStream("StreamSvc.Push")
+	st1, err1 := f.conn.NewStream("StreamSvc.Push")
+	if err0 != nil || err1 != nil {
+		x.Fail("C09/open-failed/refused-opens", "NewStream: %v / %v", err0, err1)
+		return
+	}
+	type rd struct{ got [][]byte }
+	read := func(name string, st rpc.Stream) *rd {
+		r := &rd{}
+		vs.GoNamed(name, func() {
+			for {
+				var m []byte
+				if st.ReadMessage(nil, &m) != nil {
+					return
+				}
+				r.got = append(r.got, append([]byte(nil), m...))
+			}
+		})
+		return r
+	}
+	r0, r1 := read("reader0", st0), read("reader1", st1)
+	sent := 0
+	roundTrip := func(label string) bool {
+		a, b := streamMsg(0x31, sent), streamMsg(0x32, sent)
+		st0.WriteMessage(&a)
+		st1.WriteMessage(&b)
+		vs.Quiesce()
+		sent++
+		for i, r := range []*rd{r0, r1} {
+			if len(r.got) != sent {
+				x.Fail("C09/client-blocked/refused-opens", "%s: stream %d (opened by the connection's frame number %d) has delivered %d echoes of %d messages", label, i, i, len(r.got), sent)
+				return false
+			}
+			if !eqBytes(r.got[sent-1], transform(streamMsg(byte(0x31+i), sent-1))) {
+				x.Fail("C09/client-sequence/refused-opens", "%s: stream %d echo %d is %x", label, i, sent-1, r.got[sent-1])
+				return false
+			}
+		}
+		return true
+	}
+	ok := roundTrip("before any refused open")
+	for i := 0; ok && i < 3; i++ {
+		name := c09BadNames[(rot+i)%len(c09BadNames)]
+		var st rpc.Stream
+		var err error
+		ret := false
+		vs.GoNamed(fmt.Sprintf("opener%d", i), func() { st, err = f.conn.NewStream(name); ret = true })
+		vs.Quiesce()
+		if !ret {
+			x.Fail("C09/refused-open-hangs", "NewStream(%q) did not return", name)
+			break
+		}
+		if err == nil && name != "Svc.Echo" { // (a stream open that names a unary method is acknowledged and runs nothing)
+			x.Fail("C09/refused-open-succeeds", "NewStream(%q) returned a stream (%v) and no error", name, st != nil)
+		}
+		if f.w.streamsEx != 0 {
+			x.Fail("C09/handler-ended/refused-opens", "after NewStream(%q) was refused, %d of the %d running stream handlers have returned", name, f.w.streamsEx, f.w.streamsIn)
+			break
+		}
+		ok = roundTrip(fmt.Sprintf("after NewStream(%q) was refused", name))
+	}
+	x.Outcome("pipelining=%v rot=%d sent=%d in=%d ex=%d", so.pipelining, rot, sent, f.w.streamsIn, f.w.streamsEx)
+	f.conn.Close()
+	vs.Quiesce()
+}
+
+func init() {
+	register(&Scenario{Prop: "C09", Name: "c09/slow-connect-callback", Quick: []Bound{{0, 0}}, Thorough: []Bound{{1, 0}}, Body: c09SlowConnect, BudgetQ: 15, BudgetT: 100, MaxSteps: 200000, MinHB: 1})
+	register(&Scenario{Prop: "C09", Name: "c09/refused-opens-next-to-open-streams", Quick: []Bound{{0, 0}}, Thorough: []Bound{{1, 0}}, Body: c09RefusedOpens, BudgetQ: 15, BudgetT: 100, MinHB: 1})
 }
